@@ -404,6 +404,6 @@ def run_history(case, rec):
 
 
 SUBS = [
-    Sub("history_linear", run_history, gen=lambda: histories(["elastic_dyn", "thermal", "beam"]), quick=80, thorough=900, shards=6),
-    Sub("history_nonlinear", run_history, gen=lambda: histories(["phasefield", "inelastic", "hyperelastic"]), quick=50, thorough=500, shards=8),
+    Sub("history_linear", run_history, gen=lambda: histories(["elastic_dyn", "thermal", "beam"]), quick=200, thorough=900, shards=6),
+    Sub("history_nonlinear", run_history, gen=lambda: histories(["phasefield", "inelastic", "hyperelastic"]), quick=120, thorough=500, shards=8),
 ]
